@@ -165,6 +165,7 @@ class Session:
                 'rule': 'one evaluation = one solver query (obligation) over symbolic inputs; distinct = distinct '
                         '(family, obligation) pairs; paths = feasible symbolic paths through the encoded MIR / harness',
                 'obligations': nobs, 'discharged': ndis,
+                'programs': max(1, sum(o.queries for o in self.obs)), 'disagreements_checked': self.validated,
                 'violated_known': sorted(known_hit), 'violated_new': [o.role for o in new_viol],
                 'inconclusive': self.inconclusive_reasons[:20],
                 'functions_encoded': self.functions,
